@@ -120,6 +120,19 @@ def gen_cases(ctx):
                           "field": field(rng, d, deg), "iterative": it, "sizes": [1, 2, 3, d, d + 1, 50]})
     outs = {"TETRA": [[0.3, 0.3, -0.05], [0.4, 0.4, 0.3], [-0.05, 0.3, 0.3]], "HEXA": [[0.2, 0.3, 1.1], [1.05, 0, 0], [0, -1.2, 0.5]],
             "PRISM": [[0.3, 0.3, 1.05], [0.3, 0.3, -1.1], [0.2, 0.2, 1.2], [0.6, 0.6, 0.0]]}
+    # query / move / query sequences on the same mesh object (stale caches across moves)
+    def steps(d):
+        ms = motions(rng, d)[:3]
+        tr, ro, sy = ms
+        sy2 = {"t": "symmetry", "point": [rnd(rng, -1, 1), rnd(rng, -1, 1), 0.0], "n": [1.0, rnd(rng, -1, 1), 0.5 if d == 3 else 0.0]}
+        return [tr, sy, ro, {"t": "setcoord", "via": sy2}, {"t": "deepcopy", "via": sy}, {"t": "setcoord", "via": tr}, sy2]
+    seqs = [("TRI3", None, 1, False), ("QUAD4", None, 1, True), ("TETRA4", None, 1, False), ("HEXA8", ghex, 1, True), ("PRISM6", pri, 1, False)]
+    if thorough:
+        seqs += [("TRI6", None, 2, False), ("TETRA10", None, 2, False), ("HEXA8", None, 1, True), ("PRISM6", None, 1, False), ("QUAD9", gen, 1, True), ("HEXA27", ppd, 2, False), ("PRISM15", pri, 2, False)]
+    for el, verts, deg, it in seqs:
+        d = DIM[fam(el)]
+        cases.append({"kind": "sequence", "elem": el, "verts": verts, "poly": star_polygon(rng, rng.random() < 0.5), "h": 1.5 if d == 2 else 2.0, "ext": 1.5, "layers": 1,
+                      "seed": rng.randint(0, 10**6), "field": field(rng, d, deg), "iterative": it, "steps": steps(d)})
     # purity of the geometry queries (with and without the deformed-configuration option) and the
     # deformed-configuration option against an explicitly moved mesh
     pur = [("TRI3", True), ("PRISM6", False)] + ([("QUAD4", False), ("TRI6", True), ("TETRA4", True), ("HEXA8", False), ("TETRA10", False)] if thorough else [])
@@ -173,30 +186,38 @@ def run(ctx):
         ctx.obligation("static-lib", False, log[-1500:])
         ctx.violation("static-lib-build", "coq/lib or coq/model does not build", {"log": log[-3000:]}, found_input=False)
         return
-    # ---- 1. translate ---------------------------------------------------------------
-    try:
-        E = T_elems.read_elems(ctx.repo)
-        FT = T_faces.read_faces(ctx.repo)
-        ev_form, ev_line = T_faces.read_eval_form(ctx.repo)
-        T_faces.read_affine_branch(ctx.repo)
-        trim, orient, pie_line = T_faces.read_pointin_form(ctx.repo)
-    except (TranslateError, SyntaxError, OSError) as ex:
-        ctx.obligation("translate", False, str(ex))
-        ctx.violation("translate", "translator rejected the source: %s" % ex, {"construct": str(ex)}, found_input=False)
-        return
-    ORIENT["v"] = orient
-    ctx.obligation("translate", True, "%d element classes; Eval form %s (line %d); Get_pointsInElem rows %s / normals %s" % (len(FT), ev_form, ev_line, trim, orient))
-    ctx.cov["eval_form"] = ev_form
-    ctx.cov["pointin_form"] = [trim, orient]
-    rc, out, err = ctx.impl_python(os.path.join(common.VERIF, "corr", "impl_gauss.py"), timeout=300)
-    if rc != 0:
-        ctx.obligation("dump-gauss", False, err[-1500:])
-        ctx.violation("dump-gauss", "cannot obtain the quadrature tables from the implementation", {"stderr": err[-3000:]}, found_input=False)
-        return
-    dump = json.loads(out)
-    open(os.path.join(ctx.build, "Gen_Gauss.v"), "w").write(T_gauss.emit_coq(dump))
-    open(os.path.join(ctx.build, "Gen_Elems.v"), "w").write(T_elems.emit_coq(E))
-    open(os.path.join(ctx.build, "Gen_Faces.v"), "w").write(T_faces.emit_coq(FT, ev_form, (trim, orient)))
+    # ---- 1. translate (each reader on its own: a rejected construct is reported and the run goes on) ----
+    def attempt(name, fn):
+        try:
+            return fn()
+        except (TranslateError, SyntaxError, OSError) as ex:
+            ctx.obligation("translate:" + name, False, str(ex))
+            ctx.violation("translate" if name == "tables" else "translate:" + name, "translator rejected the source (%s): %s" % (name, ex),
+                          {"construct": str(ex), "reader": name}, found_input=False)
+            return None
+    tabs = attempt("tables", lambda: (T_elems.read_elems(ctx.repo), T_faces.read_faces(ctx.repo)))
+    E, FT = tabs if tabs is not None else (None, {})
+    evr = attempt("Eval", lambda: T_faces.read_eval_form(ctx.repo))
+    afr = attempt("affine-branch", lambda: T_faces.read_affine_branch(ctx.repo))
+    pir = attempt("Get_pointsInElem", lambda: T_faces.read_pointin_form(ctx.repo))
+    ev_form, ev_line = evr if evr is not None else ("tangent", 0)       # placeholders keep Gen_Faces.v well-formed;
+    trim, orient, pie_line = pir if pir is not None else ("last1", "tables", 0)   # the C08_cur_* statements are then NOT compiled
+    ORIENT["v"] = orient if pir is not None else "unknown"
+    if tabs is not None and evr is not None and afr is not None and pir is not None:
+        ctx.obligation("translate", True, "%d element classes; Eval form %s (line %d); Get_pointsInElem rows %s / normals %s" % (len(FT), ev_form, ev_line, trim, orient))
+    ctx.cov["eval_form"] = ev_form if evr is not None else "rejected"
+    ctx.cov["pointin_form"] = [trim, orient] if pir is not None else "rejected"
+    dump = None
+    if tabs is not None:
+        rc, out, err = ctx.impl_python(os.path.join(common.VERIF, "corr", "impl_gauss.py"), timeout=300)
+        if rc != 0:
+            ctx.obligation("dump-gauss", False, err[-1500:])
+            ctx.violation("dump-gauss", "cannot obtain the quadrature tables from the implementation", {"stderr": err[-3000:]}, found_input=False)
+        else:
+            dump = json.loads(out)
+            open(os.path.join(ctx.build, "Gen_Gauss.v"), "w").write(T_gauss.emit_coq(dump))
+            open(os.path.join(ctx.build, "Gen_Elems.v"), "w").write(T_elems.emit_coq(E))
+            open(os.path.join(ctx.build, "Gen_Faces.v"), "w").write(T_faces.emit_coq(FT, ev_form, (trim, orient)))
     # ---- 3a/3b. correspondence (run first: it provides the replays for broken obligations) ----
     cases = gen_cases(ctx)
     rc, out, err = ctx.impl_python(IMPL, input=json.dumps({"tables": True, "cases": cases}), timeout=1500)
@@ -229,20 +250,25 @@ def run(ctx):
         if mism:
             ctx.violation("corr:tables", "translated index tables differ from the live properties: " + mism[0], {"mismatches": mism[:20]}, found_input=False)
     # ---- 2. Coq ------------------------------------------------------------------------------
-    ctx.copy_props("C08/C08_defs.v", "C08/C08_faces.v", "C08/C08_measure.v", "C08/C08_invmap.v", "C08/C08_pointin.v", "C08/C08_eval.v",
-                   "C08/C08_cur_invmap.v", "C08/C08_cur_pointin.v")
-    r0 = ctx.coq(["C08_defs.v", "Gen_Elems.v", "Gen_Gauss.v", "Gen_Faces.v"], timeout=300, count=False)
     proofs = {}
-    if not r0.ok:
-        ctx.obligation("generated files compile", False, r0.log[-1500:])
-        ctx.violation("gen-compile", "generated Coq tables do not compile", {"log": r0.log[-3000:]}, found_input=False)
-    else:
-        for f in ["C08_faces.v", "C08_invmap.v", "C08_pointin.v"]:
-            proofs[f] = ctx.coq([f], timeout=600)
-        proofs["C08_measure.v"] = ctx.coq(["C08_measure.v"], timeout=900) if proofs["C08_faces.v"].ok else None
-        proofs["C08_eval.v"] = ctx.coq(["C08_eval.v"], timeout=600) if proofs["C08_invmap.v"].ok else None
-        proofs["C08_cur_invmap.v"] = ctx.coq(["C08_cur_invmap.v"], timeout=300) if proofs["C08_invmap.v"].ok else None
-        proofs["C08_cur_pointin.v"] = ctx.coq(["C08_cur_pointin.v"], timeout=300) if proofs["C08_pointin.v"].ok else None
+    if dump is not None:
+        ctx.copy_props("C08/C08_defs.v", "C08/C08_faces.v", "C08/C08_measure.v", "C08/C08_invmap.v", "C08/C08_pointin.v", "C08/C08_eval.v",
+                       "C08/C08_cur_invmap.v", "C08/C08_cur_pointin.v")
+        r0 = ctx.coq(["C08_defs.v", "Gen_Elems.v", "Gen_Gauss.v", "Gen_Faces.v"], timeout=300, count=False)
+        if not r0.ok:
+            ctx.obligation("generated files compile", False, r0.log[-1500:])
+            ctx.violation("gen-compile", "generated Coq tables do not compile", {"log": r0.log[-3000:]}, found_input=False)
+        else:
+            for f in ["C08_faces.v", "C08_invmap.v", "C08_pointin.v"]:
+                proofs[f] = ctx.coq([f], timeout=600)
+            proofs["C08_measure.v"] = ctx.coq(["C08_measure.v"], timeout=900) if proofs["C08_faces.v"].ok else None
+            proofs["C08_eval.v"] = ctx.coq(["C08_eval.v"], timeout=600) if proofs["C08_invmap.v"].ok else None
+            # statements about the source AS FOUND: only when the corresponding reader recognised the source
+            # (otherwise the `translate:<reader>` violation already says that the property is not shown)
+            if evr is not None:
+                proofs["C08_cur_invmap.v"] = ctx.coq(["C08_cur_invmap.v"], timeout=300) if proofs["C08_invmap.v"].ok else None
+            if pir is not None:
+                proofs["C08_cur_pointin.v"] = ctx.coq(["C08_cur_pointin.v"], timeout=300) if proofs["C08_pointin.v"].ok else None
     ctx.sample({"theorem": "face_tables_close : forall t, In t all_ftabs -> fdim t = 3 -> forall l, sum of area vectors = 0 /\\ sum of 2*flux = 6 * measure_star (parent)",
                 "proof": "vm_compute on the regenerated tables through Qnorm_sound"})
     # ---- 4. violations --------------------------------------------------------------------------
@@ -254,7 +280,7 @@ def run(ctx):
         ctx.note_case(r["cls"])
     ctx.cov["corr_checks"] = len(results)
     ctx.cov["corr_cases"] = len(cases)
-    ctx.cov["case_kinds"] = {k: sum(1 for c in cases if c["kind"] == k) for k in ("geom", "locate_gmsh", "locate_single", "outside", "purity", "deformed", "faces")}
+    ctx.cov["case_kinds"] = {k: sum(1 for c in cases if c["kind"] == k) for k in ("geom", "locate_gmsh", "locate_single", "outside", "purity", "deformed", "faces", "sequence")}
     ctx.cov["element_types_sampled"] = sorted(set(c["elem"] for c in cases))
     ctx.obligation("corr:geometry/location cases", not fails, "%d of %d checks fail; keys %s" % (len(fails), len(results), sorted(by_key)[:8]))
     if results:
